@@ -478,13 +478,14 @@ def _run(R, M, vks, rng, quick):
         _case(R, M, w, keys, rng.choice(vks), rng, keyform='int', how='set', shape='set-int')
         _guard(R, 'address', lambda: _address_keys(R, M, rng))
         _guard(R, 'hashed', lambda: _hashed_keys(R, M, rng))
+        _guard(R, 'bitarray', lambda: _bitarray_keys(R, M, rng))
         _guard(R, 'key-serializer', lambda: _ks_keys(R, M, rng))
         R.case(None, n=3)
 
     _histories(R, M, vks, rng, quick)
 
     # ---- keys that do not fit
-    for w in [1, 2, 3, 7, 8, 9, 16, 32, 64, 255, 256, 267, 1000]:
+    for w in [1, 2, 3, 7, 8, 9, 16, 32, 64, 248, 255, 256, 267, 1000]:
         good = sorted({rng.getrandbits(w) for _ in range(3)})
         bad_ints = [1 << w, (1 << w) + 1, (1 << (w + 1)) - 1, (1 << w) + rng.getrandbits(w), 1 << (w + 8), -1, -2, -(1 << (w - 1)) if w > 1 else -3,
                     -(1 << w), -((1 << w) - 1), -rng.getrandbits(w) - 1]
@@ -504,6 +505,11 @@ def _run(R, M, vks, rng, quick):
         zero_bytes = [b'\x00' + g0.to_bytes(nb, 'big'), bytes(nb + 1), bytes(3) + g0.to_bytes(nb, 'big')]
         attempts += [('bytes-leading-zeros', b.hex(), lambda hm, b=b: hm.set(b, 1)) for b in zero_bytes]
         attempts += [('key-serializer', b, lambda hm, b=b: _with_ks(hm, b)) for b in bad_ints[:6]]
+        if w <= 248:
+            # a hashed-string key is a 256-bit digest: it does not fit a narrower map, also when its leading byte(s) happen to be zero
+            import hashlib as _hl
+            zero_led = next(f'name{i}' for i in range(100000) if _hl.sha256(f'name{i}'.encode()).digest()[0] == 0)
+            attempts += [('hashed-string', nm, lambda hm, nm=nm: hm.set(nm, 1, hash_key=True)) for nm in (zero_led, 'name', f'k{rng.getrandbits(30)}')]
         if w < 267:
             from pytoniq_core.boc.address import Address
             for a in (Address((0, rng.randbytes(32))), Address((-1, bytes(32))), Address((0, bytes(31) + b'\x01'))):
@@ -645,6 +651,25 @@ def _address_keys(R, M, rng):
         full = int('101' + u(depth, 5) + u(pfx, depth) + u(a.wc & 0xFF, 8) + rc.bytes_to_bits(a.hash_part), 2)
         R.check(st == 'ok' and list(wide.map) == [full] and M.HashMap.parse(wide.serialize().begin_parse(), 272 + depth, value_deserializer=lambda s: s.load_coins()) == {full: 5},
                 'address-key-anycast-own-width', f'an anycast Address key in a map of its own width ({272 + depth}) is not stored under all of its bits: {e!r}'[:300], W)
+
+
+def _bitarray_keys(R, M, rng):
+    """a bit array as a key: not one of the listed key forms - the map may refuse it; if it takes it, the key is the bits in index order whatever the array's storage order"""
+    from bitarray import bitarray
+    for w in (4, 8, 13):
+        for endian in ('big', 'little'):
+            for bits in ('0001', '1000', '0110', '1', '0000', '1011'):
+                bits = (bits * 4)[:w]
+                hm = M.HashMap(w).with_uint_values(8)
+                st, e = mon.call(hm.set, bitarray(bits, endian=endian), 7)
+                R.count('bitarray_key_attempts')
+                if st == 'exc':
+                    R.exc(e)
+                    continue
+                R.counters['oracle_evaluations'] += 1
+                R.check(list(hm.map) == [int(bits, 2)], f'bitarray-key-misread-{endian}-endian', f'a {endian}-endian bit array {bits} taken as a key landed on {list(hm.map)} instead of {int(bits, 2)}',
+                        {'width': w, 'bits': bits, 'endian': endian})
+    R.cover('keyforms', 'bitarray')
 
 
 def _hashed_keys(R, M, rng):
